@@ -543,6 +543,32 @@ fn bodiless(c: u16) -> bool {
 }
 const NAMES: [&str; 12] = ["Content-Type", "Date", "Server", "ETag", "Location", "Cache-Control", "x-dup", "X-Dup", "x-other", "Link", "Age", "Allow"];
 
+// registered response / representation fields that Humphrey's HeaderType table does not know today (a name a later
+// version adds to the enum and to the parser's table but forgets in the serialiser's table is written as an empty name;
+// added after the seeded change `C07-r5-...-headertype-variants` was missed): every one of them is used, in turn, by the
+// first cases of a run, in the spelling given here, lower-cased and upper-cased
+const RESP_EXTRA: &[&str] = &["Retry-After", "Vary", "Accept-Ranges", "Content-Range", "Range", "Content-Language", "Content-Location",
+    "Content-Disposition", "Content-Security-Policy", "Content-Security-Policy-Report-Only", "Strict-Transport-Security",
+    "X-Content-Type-Options", "X-Frame-Options", "X-XSS-Protection", "Referrer-Policy", "Permissions-Policy", "Cross-Origin-Opener-Policy",
+    "Cross-Origin-Embedder-Policy", "Cross-Origin-Resource-Policy", "Alt-Svc", "Accept-Patch", "Accept-Post", "Accept-CH", "Clear-Site-Data",
+    "Proxy-Authenticate", "Proxy-Authorization", "Authentication-Info", "Server-Timing", "Timing-Allow-Origin", "SourceMap", "NEL",
+    "Report-To", "Refresh", "P3P", "Trailer", "TE", "Keep-Alive", "Preference-Applied", "Sec-WebSocket-Accept", "Sec-WebSocket-Protocol",
+    "Sec-WebSocket-Extensions", "Sec-WebSocket-Version", "Content-MD5", "Digest", "Want-Digest", "X-Powered-By", "X-Request-Id",
+    "X-Robots-Tag", "X-UA-Compatible", "X-DNS-Prefetch-Control", "Tk", "DAV", "Lock-Token", "MS-Author-Via", "Status", "Pragma", "Expires",
+    "Last-Modified", "Warning", "Upgrade", "Via", "WWW-Authenticate", "Access-Control-Allow-Origin", "Access-Control-Allow-Methods",
+    "Access-Control-Allow-Headers", "Access-Control-Allow-Credentials", "Access-Control-Expose-Headers", "Access-Control-Max-Age",
+    "Origin-Agent-Cluster", "Priority", "Cache-Status", "CDN-Cache-Control", "Proxy-Status", "Speculation-Rules", "Supports-Loading-Mode",
+    "If-Match", "If-None-Match", "If-Modified-Since", "If-Unmodified-Since", "If-Range", "Max-Forwards", "Forwarded", "From", "Expect",
+    "Referer", "User-Agent", "Accept", "Accept-Encoding", "Accept-Language", "Accept-Charset", "Authorization", "Cookie", "Host", "Origin"];
+
+fn forced_name(i: usize) -> Option<String> {
+    let k = i / 2;
+    let n = RESP_EXTRA.len();
+    if k >= 3 * n { return None; }
+    let base = RESP_EXTRA[k % n];
+    Some(match k / n { 0 => base.to_string(), 1 => base.to_ascii_lowercase(), _ => base.to_ascii_uppercase() })
+}
+
 fn rand_token(rng: &mut Rng, max: usize) -> String {
     const CH: &[u8] = b"abcdefghijklmnopqrstuvwxyzABCDEFGHIJKLMNOPQRSTUVWXYZ0123456789-_./=;, :";
     let n = rng.range(1, max);
@@ -630,6 +656,11 @@ fn random(n: usize, maxbody: usize) {
                     resp = resp.with_header(name, value);
                 }
             }
+            if let Some(name) = forced_name(i) {
+                let value = rand_token(&mut rng, 24);
+                headers.push((name.clone(), value.clone()));
+                resp = resp.with_header(name.as_str(), value);
+            }
             resp = resp.with_bytes(&body);
             let with_cl = rng.chance(3, 4);
             if with_cl {
@@ -657,6 +688,10 @@ fn random(n: usize, maxbody: usize) {
             for _ in 0..nh {
                 let name = if rng.chance(1, 3) { "X-Dup" } else if rng.chance(1, 5) { "Set-Cookie" } else { *rng.pick(&NAMES) };
                 headers.push((name.to_string(), rand_token(&mut rng, 24)));
+            }
+            if let Some(name) = forced_name(i) {
+                let at = rng.below(headers.len() + 1);
+                headers.insert(at, (name, rand_token(&mut rng, 24)));
             }
             let framing = if bodiless(code) { "none" } else if version == "HTTP/1.1" && rng.chance(1, 2) { "chunked" } else { "cl" };
             let fpos = rng.below(headers.len() + 1);
@@ -824,7 +859,9 @@ fn serve(mut s: TcpStream, host: &str, st: &Arc<Mutex<ServerState>>) {
 
 fn start_servers() -> Result<Arc<Mutex<ServerState>>, String> {
     let st = Arc::new(Mutex::new(ServerState::default()));
-    for host in ["127.0.0.1", "127.0.0.2"] {
+    // 127.0.0.12 / 127.0.0.21: hosts whose names have another host's name as a proper prefix (a client that compares
+    // authorities by string prefix confuses them; added after the seeded `C07-r5-...-same-origin-shortcut` was missed)
+    for host in ["127.0.0.1", "127.0.0.2", "127.0.0.12", "127.0.0.21"] {
         // the client can only address port 80 (parse_url appends ":80"); another check may hold it for a moment
         let wait_s: u64 = std::env::var("VERIF_PORT80_WAIT").ok().and_then(|s| s.parse().ok()).unwrap_or(40);
         let t0 = std::time::Instant::now();
@@ -975,7 +1012,7 @@ fn client_random(n: usize) {
         }
     };
     let mut rng = Rng::from_env();
-    let hosts = ["127.0.0.1", "127.0.0.2"];
+    let hosts = ["127.0.0.1", "127.0.0.2", "127.0.0.12", "127.0.0.21"];
     for run in 0..n {
         // a random script: hops until a non-followed status; Location relative or absolute to either host
         let len = rng.below(6); // the property quantifies over chains of 0..5 redirects (a client may cap longer ones)
